@@ -144,31 +144,37 @@ Proof. exact flag_value_lemma. Qed.
 Print Assumptions C03_flag_value.
 
 (* THE REAL LAYER (rationals and symbolic multiples of pi, Exact<Real>
-   add/sub/mul/div/neg/pow under the Value flags; [piq] is whatever rational
-   Real::approximate uses for pi).  Full statement:
-     forall piq e p, rfeval piq e = Ok (p, true) -> exists s, sval e = Some s /\ sv_eq (sym p) s
-   ("flagged exact => the pattern IS the symbolic value in Q + Q.pi").
-   REFUTED on the faithful model and on the real code: floor / ceil / round of
-   a non-zero multiple of pi are computed from the rational stand-in for pi
-   and flagged exact (Complex::floor: Exact::new(.., true)); `floor(pi 10^25)`
-   prints 31415926535897932384626408 unmarked, the true value ends ...433.
-   Outside that class the statement holds. *)
-Theorem C03_real_flag_sound_refuted : forall piq,
-  exists e p, rfeval piq e = Ok (p, true) /\ sval e = None.
-Proof. exact real_flag_sound_refuted_lemma. Qed.
-Print Assumptions C03_real_flag_sound_refuted.
-
-Theorem C03_real_flag_sound_except_known : forall piq e p,
-  known_C03_intfn_of_pi piq e = false -> rfeval piq e = Ok (p, true) ->
-  exists s, sval e = Some s /\ sv_eq (sym p) s.
+   add/sub/mul/div/neg/pow, floor/ceil/round, under the Value flags; [piq] is
+   whatever rational Real::approximate uses for pi).  FULL STRENGTH on today's
+   code (floor/ceil/round as repaired by fend 05b3863): a result flagged exact
+   IS the symbolic value of the expression in Q + Q.pi. *)
+Theorem C03_real_flag_sound : forall piq e p,
+  rfeval piq e = Ok (p, true) -> exists s, sval e = Some s /\ sv_eq (sym p) s.
 Proof. exact real_flag_sound_lemma. Qed.
-Print Assumptions C03_real_flag_sound_except_known.
+Print Assumptions C03_real_flag_sound.
 
 (* anything built from an `approx.` operand stays marked at this layer too *)
-Theorem C03_real_flag_monotone : forall piq e p fl,
-  r_uses_approx e = true -> rfeval piq e = Ok (p, fl) -> fl = false.
+Theorem C03_real_flag_monotone : forall piq old e p fl,
+  r_uses_approx e = true -> rfeval_gen piq old e = Ok (p, fl) -> fl = false.
 Proof. exact real_flag_monotone_lemma. Qed.
 Print Assumptions C03_real_flag_monotone.
+
+(* Documentation of the defect found by this development and repaired by
+   05b3863: before it, floor / ceil / round of a non-zero multiple of pi were
+   computed from the rational stand-in for pi and flagged exact
+   (`floor(pi 10^25)` printed 31415926535897932384626408 unmarked, the true
+   value ends ...433).  On that model ([rfeval_old]) the statement is refuted
+   and holds outside the classifier. *)
+Theorem C03_real_flag_sound_old_refuted : forall piq,
+  exists e p, rfeval_old piq e = Ok (p, true) /\ sval e = None.
+Proof. exact real_flag_sound_old_refuted_lemma. Qed.
+Print Assumptions C03_real_flag_sound_old_refuted.
+
+Theorem C03_real_flag_sound_old_except_known : forall piq e p,
+  known_C03_intfn_of_pi piq e = false -> rfeval_old piq e = Ok (p, true) ->
+  exists s, sval e = Some s /\ sv_eq (sym p) s.
+Proof. exact real_flag_sound_old_except_known_lemma. Qed.
+Print Assumptions C03_real_flag_sound_old_except_known.
 
 (* Documentation of the defect that was found and repaired: before 198ba44
    Value::add returned self whenever rhs.is_zero(), without consulting
@@ -198,7 +204,9 @@ Example C03_real_layer_inhabited :
   /\ rfeval (22 # 7) (RDiv (RLit 1) RPiC) = Ok (RSimple (1 / (1 * (22 # 7))), false)
   /\ rfeval (22 # 7) (RMul RPiC RPiC) = Ok (RPi (1 * (1 * (22 # 7))), false)
   /\ known_C03_intfn_of_pi (22 # 7) (RSub (RDiv (RLit 1) RPiC) (RDiv (RLit 1) RPiC)) = false
-  /\ known_C03_intfn_of_pi (22 # 7) (RFloor (RMul (RLit 100) RPiC)) = true.
+  /\ known_C03_intfn_of_pi (22 # 7) (RFloor (RMul (RLit 100) RPiC)) = true
+  /\ rfeval (22 # 7) (RFloor (RMul (RLit 100) RPiC)) = Ok (RSimple (inject_Z 314), false)
+  /\ rfeval_old (22 # 7) (RFloor (RMul (RLit 100) RPiC)) = Ok (RSimple (inject_Z 314), true).
 Proof. repeat split; vm_compute; reflexivity. Qed.
 
 Example C03_known_class_inhabited :
